@@ -477,6 +477,10 @@ pub fn fold_case(&(k, v, unit, len, size, hist): &(usize, usize, bool, usize, us
 }
 
 fn main() {
+    kvh::on_thread(real_main);
+}
+
+fn real_main() {
     let args = kvh::parse_args("C08", "c08");
     let mut ctx = Ctx::new(args.clone(), RULE);
     if let Some(p) = &args.replay {
